@@ -12,6 +12,7 @@ CONSTANTS
   Live = TRUE
   Mode = "loop"
   CancelInLoop = TRUE
+  DropCancels = FALSE
   Emit = FALSE
 INVARIANTS TypeOK ContractHolds AtMostOnce ResultOnlyAfterEnd FinalValueAfterResult MonotoneObserved FlagOnlyByCancel
 PROPERTIES LoopDelivers CancelTerminates
